@@ -43,6 +43,8 @@ using namespace FEAT;
 namespace
 {
   FILE* g_log = nullptr;
+  FEAT::String g_out("c13");
+  bool g_splitter = false;
   std::uint64_t g_sched = 0;      // 0 = interposer passive (plain PMPI_Waitany)
   std::uint64_t g_sched_state = 0;
   const char* g_phase = "init";
@@ -235,6 +237,65 @@ namespace C13
       dump_vec("A_u", y.local(), kx, ky);
       the_system_level.matrix_sys.apply(y, u, w, -0.5);
       dump_vec("w_minus_half_A_u", y.local(), kx, ky);
+      // transposed products, diagonal and lumped rows of the global (type-0) matrix
+      g_phase = "matvec_transposed";
+      the_system_level.matrix_sys.apply_transposed(y, u);
+      dump_vec("At_u", y.local(), kx, ky);
+      the_system_level.matrix_sys.apply_transposed(y, u, w, -0.5);
+      dump_vec("w_minus_half_At_u", y.local(), kx, ky);
+      g_phase = "diag";
+      the_system_level.matrix_sys.extract_diag(y);
+      dump_vec("diag_A", y.local(), kx, ky);
+      the_system_level.matrix_sys.lump_rows(y);
+      dump_vec("lump_A", y.local(), kx, ky);
+      // remaining reductions and the asynchronous variants (must give the values of the blocking calls)
+      g_phase = "async";
+      dump_scalar("min_abs_u", u.min_abs_element());
+      dump_scalar("max_u", u.max_element());
+      dump_scalar("min_u", u.min_element());
+      dump_scalar("dot_u_w_async", u.dot_async(w).wait());
+      dump_scalar("norm2_u_async", u.norm2_async().wait());
+      dump_scalar("norm2sqr_w_async", w.norm2sqr_async().wait());
+      dump_scalar("max_abs_u_async", u.max_abs_element_async().wait());
+      dump_scalar("min_abs_u_async", u.min_abs_element_async().wait());
+      dump_scalar("max_u_async", u.max_element_async().wait());
+      dump_scalar("min_u_async", u.min_element_async().wait());
+      {
+        GlobalSystemVector v = the_system_level.matrix_sys.create_vector_r();
+        for(Index i = 0; i < kx.size(); ++i) v.local()(i, key_value(kx(i), ky(i), data_seed + 17u * std::uint64_t(comm.rank() + 1)));
+        auto t0 = v.sync_0_async(); t0.wait();
+        dump_vec("sync0_async_post", v.local(), kx, ky);
+        for(Index i = 0; i < kx.size(); ++i) v.local()(i, key_value(kx(i), ky(i), data_seed + 31u * std::uint64_t(comm.rank() + 1)));
+        auto t1 = v.sync_1_async(); t1.wait();
+        dump_vec("sync1_async_post", v.local(), kx, ky);
+      }
+      // ---- base splitter: join of the consistent vector u onto the unpartitioned base mesh (root), split of a key-valued
+      //      base vector into the patches, and the same through a file
+      g_phase = "splitter";
+      if(g_splitter)
+      {
+        the_system_level.assemble_base_splitter(domain.front());
+        const auto& spl = the_system_level.base_splitter_sys;
+        LocalVector bx, by;
+        const bool root = (comm.size() <= 1) || (comm.rank() == 0);
+        if(comm.size() > 1 && root) Coords<ShapeType::dimension>::project(bx, by, domain.front().level_b().space);
+        else if(root) { bx = kx.clone(); by = ky.clone(); }
+        LocalVector vb(root ? bx.size() : Index(0), 0.0);
+        spl.join(vb, u);
+        if(root) dump_vec("join_u", vb, bx, by);
+        if(root) for(Index i = 0; i < bx.size(); ++i) vb(i, key_value(bx(i), by(i), data_seed + 5000u));
+        GlobalSystemVector s2 = the_system_level.matrix_sys.create_vector_r();
+        s2.format(-77.0);
+        spl.split(s2, vb);
+        dump_vec("split_b", s2.local(), kx, ky);
+        const String fn = g_out + ".joined." + stringify(int(comm.size())) + ".bin";
+        spl.join_write_out(w, fn);
+        comm.barrier();
+        GlobalSystemVector s3 = the_system_level.matrix_sys.create_vector_r();
+        s3.format(-77.0);
+        spl.split_read_from(s3, fn);
+        dump_vec("io_w", s3.local(), kx, ky);
+      }
     }
     // ---- grid transfer across every level pair of the (possibly multi-layered) hierarchy: restriction of a
     //      key-valued fine vector and prolongation of a key-valued coarse vector, logged per level with that level's
@@ -387,6 +448,10 @@ namespace C13
     Control::Domain::PartiDomainControl<DomainLevelType> domain(comm, true);
     domain.parse_args(args);
     domain.set_desired_levels(args.query("level")->second);
+    // base levels (needed by the base splitter) can be kept for at most 2 domain layers (documented limitation)
+    // (= no layer boundary at all, or a single one that joins everything on one process)
+    { int nl = 0, multi = 0; for(const auto& a : args.query("level")->second) { const auto p = a.find(':'); if(p != a.npos) { ++nl; if(a.substr(p + 1) != "1") ++multi; } } g_splitter = (nl <= 1) && (multi == 0); }
+    if(g_splitter) domain.keep_base_levels();
     domain.create(args.query("mesh")->second);
     domain.add_trafo_mesh_part_charts();
     run(args, domain, data_seed, domain.get_chosen_parti_info(), domain.format_chosen_levels());
@@ -625,6 +690,7 @@ int main(int argc, char* argv[])
   std::uint64_t sched = 0, data = 1;
   args.parse("out", out); args.parse("space", space); args.parse("sched-seed", sched); args.parse("data-seed", data);
   if(args.check("mesh") < 1 || args.check("level") < 1) { comm.print(std::cerr, "need --mesh and --level"); FEAT::Runtime::abort(); }
+  g_out = out;
   g_log = std::fopen((out + "." + stringify(comm.rank()) + ".jsonl").c_str(), "w");
   if(!g_log) { std::perror("log"); FEAT::Runtime::abort(); }
   g_sched = sched; g_sched_state = mix64(sched * 1000003ull + std::uint64_t(comm.rank()));
